@@ -342,6 +342,8 @@ def getitem(I, obj, idx):
 
 def _sym_index_concrete(I, items, idx):
     n = len(items)
+    if n == 0:
+        raise PyExc('IndexError')
     i = norm_index(I, idx, z3.IntVal(n))
     if not I.st.branch(z3.And(i >= 0, i < n)):
         raise PyExc('IndexError')
@@ -1145,8 +1147,29 @@ def getattr(I, obj, name):
                 if isinstance(v, Closure):
                     return BoundMethod(v, obj.obj)
                 return v
+        if isinstance(obj.obj, Ref) and obj.obj.kind == 'clist':
+            if name == '__init__':
+                def linit(I_, a, k, o=obj.obj):
+                    items = concrete_iter(I_, a[0]) if a else []
+                    if items is None:
+                        raise Unsupported('list.__init__(symbolic sequence)')
+                    I_.st.note_write(o)
+                    I_.st.heap[o] = list(items)
+                return Builtin('list.__init__', linit)
+            return container_method(I, obj.obj, name)
         raise PyExc('AttributeError', name)
     if isinstance(obj, Ref):
+        if obj.kind == 'clist' and obj.cls is not None:
+            cv = obj.cls.lookup(name)
+            if isinstance(cv, PropertyV):
+                return I.call(cv.fget, [obj], {})
+            attrs = obj.meta.setdefault('attrs', {})
+            if name in attrs:
+                return attrs[name]
+            if name == '__class__':
+                return ClassRef(obj.cls)
+            if cv is not UNDEF:
+                return BoundMethod(cv, obj) if isinstance(cv, Closure) else cv
         if obj.kind == 'obj':
             cell = st.heap[obj]
             if name == '__dict__':
@@ -1273,6 +1296,15 @@ def objdict_method(I, od, name):
 
 
 def setattr(I, obj, name, v):
+    if isinstance(obj, Ref) and obj.kind == 'clist' and obj.cls is not None:
+        cv = obj.cls.lookup(name)
+        if isinstance(cv, PropertyV):
+            if cv.fset is None:
+                raise PyExc('AttributeError', 'can not set %s' % name)
+            I.call(cv.fset, [obj, v], {})
+            return
+        obj.meta.setdefault('attrs', {})[name] = v
+        return
     if isinstance(obj, Ref) and obj.kind == 'obj':
         if obj.cls is not None:
             cv = obj.cls.lookup(name)
@@ -1392,6 +1424,16 @@ def container_method(I, obj, name):
             return TypeTag('float')
         if name == 'astype':
             return B(lambda I_, a, k: _astype(I_, obj, a[0]))
+        if name == 'count' and obj.kind == 'clist':
+            def count(I_, a, k):
+                n = 0
+                for y in st.heap[obj]:
+                    e = equal(I_, y, a[0])
+                    if not isinstance(e, bool):
+                        raise Unsupported('list.count with a symbolic comparison')
+                    n += 1 if e else 0
+                return n
+            return B(count)
         if name in ('sort', 'reverse', 'remove', 'count'):
             raise Unsupported('list.%s' % name)
         if name in ('sum', 'max', 'min', 'any', 'all', 'ravel', 'flatten', 'mean'):
